@@ -11,6 +11,7 @@ Arithmetic is exact (ordered field); the Float instance of the same definitions 
 numba code by the check.
 -/
 import TsdateVerif.Proofs.EPIter
+import TsdateVerif.Proofs.EPMonad
 
 namespace Tsdate.C21
 open Tsdate Tsdate.EP
@@ -120,6 +121,15 @@ theorem C21_fixed (proj : Req α → Res α) (cfg : Cfg α) (net : Net α) (sch 
   induction k with
   | zero => exact aget_replicate _ _ _ hmN
   | succ k ih => rw [iterateN_succ, iterate_post_fixed proj cfg net sch _ m hm hfree, ih]
+
+/-- **What the correspondence driver executes is the model the theorems are about**: the driver runs `iterateM`
+(Model/EPM.lean) with an effectful projection oracle (the real `tsdate.approx` wrappers over the line protocol);
+with a pure oracle and no-op handlers `iterateM` is exactly `iterate`. -/
+theorem driver_iteration_is_model (proj : Req α → Res α) (cfg : Cfg α) (net : Net α) (sch : Sched α)
+    (s : State α) :
+    iterateM (m := Id) (fun rq => pure (proj rq)) (fun _ => pure ()) (fun _ => pure ()) cfg net sch s =
+      pure (iterate proj cfg net sch s) :=
+  iterateM_id proj cfg net sch s
 
 /-! Non-vacuity: a three-sample tree `((0,1)3,2)4` with an unphased block on the edges above 0 and 1; the
 hypotheses hold, and with a toy projection (cavity + likelihood) one iteration at `Rat` produces a non-zero
